@@ -68,3 +68,108 @@ contract("ExpandingBloomFilter.add_alt", contexts=["ExpandingBloomFilter"], prop
                    "implies(full0, self._blooms[n0]._els_added == 1 and sub_reports(self._blooms[n0], hashes)))"),
                   ("reported_afterwards", "exp_reports(self, hashes)"),
                   ("inv", "inv_exp(self)")])
+
+_EHK = "strategy(eb_hf(self), key, bloom_k(eb_est(self), bloom_m(eb_est(self), f32(eb_fpr(self)))))"
+_EKREQ = [("inv", "inv_exp(self)"),
+          ("rate_accepted", "(eb_fpr(self) < 0.0 or f32(eb_fpr(self)) > 0.0) and 0 <= eb_fpr(self) < 1"),
+          ("strategy_returns_enough", "len(" + _EHK + ") >= bloom_k(eb_est(self), bloom_m(eb_est(self), f32(eb_fpr(self))))")]
+
+contract("ExpandingBloomFilter.check", contexts=["ExpandingBloomFilter", "RotatingBloomFilter"], properties=["C01", "C09", "C10", "C19"],
+         params={"key": "key"}, returns="bool", requires=_EKREQ, modifies=[],
+         ensures=[("some_sub_filter_reports_it", "result == exp_reports(self, " + _EHK + ")")])
+
+contract("ExpandingBloomFilter.add", contexts=["ExpandingBloomFilter"], properties=["C01", "C09", "C14"],
+         params={"key": "key", "force": "bool"}, requires=_EKREQ,
+         let=[("present0", "exp_reports(self, " + _EHK + ")"),
+              ("full0", "self._blooms[len(self._blooms) - 1]._els_added >= eb_est(self)"), ("n0", "len(self._blooms)")],
+         modifies=["self._blooms", "self._added_elements"],
+         ensures=[("every_call_is_counted", "self._added_elements == old(self._added_elements) + 1"),
+                  ("duplicate_inserts_nothing",
+                   "implies(present0 and not force, len(self._blooms) == n0 and "
+                   "all(self._blooms[q] == old(self._blooms[q]) for q in range(0, n0)))"),
+                  ("grows_exactly_when_newest_is_full",
+                   "implies(force or not present0, len(self._blooms) == n0 + (1 if full0 else 0))"),
+                  ("reported_afterwards", "exp_reports(self, " + _EHK + ")"), ("inv", "inv_exp(self)")])
+
+contract("ExpandingBloomFilter.__init__", contexts=["ExpandingBloomFilter"], properties=["C09", "C01"],
+         params={"est_elements": "opt[int]", "false_positive_rate": "opt[float]", "filepath": "none", "hash_function": "opt[hashfunc]"},
+         let=[("e0", "est_elements if est_elements is not None else 100"),
+              ("p0", "false_positive_rate if false_positive_rate is not None else 0.0")],
+         requires=[("usable_geometry", "e0 >= 1 and 0 < f32(p0) < 1 and 0 <= p0 < 1 and bloom_k(e0, bloom_m(e0, f32(p0))) >= 1 and "
+                                       "bloom_m(e0, f32(p0)) < 2**53")],
+         modifies=["self"],
+         ensures=[("one_empty_sub_filter", "len(self._blooms) == 1 and " + _NEWEST_FRESH),
+                  ("parameters", "eb_est(self) == e0 and eb_fpr(self) == p0 and self._added_elements == 0 and "
+                                 "eb_hf(self) == (hash_function if hash_function is not None else default_fnv_1a)"),
+                  ("inv", "inv_exp(self)")])
+
+# ---- rotating ---------------------------------------------------------------------------------------------------
+def _rot(s):
+    return s.replace("SELFQ", "self._queue_size")
+
+
+_RREQ = _EREQ + [("queue_limit", "self._queue_size >= 1 and len(self._blooms) <= self._queue_size")]
+_FULLR = "self._blooms[len(self._blooms) - 1]._els_added == eb_est(self)"
+
+contract("RotatingBloomFilter.__add_bloom_filter", contexts=["RotatingBloomFilter"], properties=["C10"],
+         requires=[("geometry_usable", "eb_est(self) >= 1 and 0 < f32(eb_fpr(self)) < 1 and "
+                                       "bloom_k(eb_est(self), bloom_m(eb_est(self), f32(eb_fpr(self)))) >= 1 and "
+                                       "bloom_m(eb_est(self), f32(eb_fpr(self))) < 2**53 and "
+                                       "(eb_fpr(self) < 0.0 or f32(eb_fpr(self)) > 0.0) and 0 <= eb_fpr(self) < 1")],
+         modifies=["self._blooms"],
+         ensures=[("one_more_sub_filter", "len(self._blooms) == old(len(self._blooms)) + 1"),
+                  ("older_sub_filters_kept", _OLDER_KEPT),
+                  ("newest_is_empty_with_the_filters_geometry", _NEWEST_FRESH)])
+
+contract("RotatingBloomFilter.__rotate_bloom_filter", contexts=["RotatingBloomFilter"], properties=["C10"],
+         params={"force": "bool"}, requires=_RREQ,
+         let=[("full0", _FULLR), ("n0", "len(self._blooms)"), ("room0", "len(self._blooms) < self._queue_size")],
+         modifies=["self._blooms"],
+         ensures=[("nothing_happens_unless_forced_or_full",
+                   "implies(not force and not full0, len(self._blooms) == n0 and "
+                   "all(self._blooms[q] == old(self._blooms[q]) for q in range(0, n0)))"),
+                  ("appends_when_there_is_room",
+                   "implies((force or full0) and room0, len(self._blooms) == n0 + 1 and "
+                   "all(self._blooms[q] == old(self._blooms[q]) for q in range(0, n0)) and " + _NEWEST_FRESH + ")"),
+                  ("drops_the_oldest_when_the_queue_is_full",
+                   "implies((force or full0) and not room0, len(self._blooms) == n0 and "
+                   "all(self._blooms[q] == old(self._blooms[q + 1]) for q in range(0, n0 - 1)) and " + _NEWEST_FRESH + ")"),
+                  ("inv", "inv_exp(self)"), ("bounded", "1 <= len(self._blooms) <= self._queue_size")])
+
+contract("RotatingBloomFilter.push", contexts=["RotatingBloomFilter"], properties=["C10"],
+         requires=_RREQ, let=[("n0", "len(self._blooms)"), ("room0", "len(self._blooms) < self._queue_size")],
+         modifies=["self._blooms"],
+         ensures=[("appends_or_rotates", "len(self._blooms) == (n0 + 1 if room0 else n0) and " + _NEWEST_FRESH),
+                  ("inv", "inv_exp(self)"), ("bounded", "1 <= len(self._blooms) <= self._queue_size")])
+
+contract("RotatingBloomFilter.pop", contexts=["RotatingBloomFilter"], properties=["C10"],
+         requires=_RREQ, raises={"RotatingBloomFilterError": "len(self._blooms) == 1"},
+         modifies=["self._blooms"],
+         ensures=[("oldest_dropped", "len(self._blooms) == old(len(self._blooms)) - 1 and "
+                                     "all(self._blooms[q] == old(self._blooms[q + 1]) for q in range(0, len(self._blooms)))"),
+                  ("inv", "inv_exp(self)"), ("bounded", "1 <= len(self._blooms) <= self._queue_size")])
+
+contract("RotatingBloomFilter.add_alt", contexts=["RotatingBloomFilter"], properties=["C10", "C01", "C14"],
+         params={"hashes": "list[int]", "force": "bool"},
+         requires=_RREQ + [_HLEN],
+         let=[("present0", "exp_reports(self, hashes)"), ("full0", _FULLR), ("n0", "len(self._blooms)"),
+              ("room0", "len(self._blooms) < self._queue_size")],
+         modifies=["self._blooms", "self._added_elements"],
+         ensures=[("every_call_is_counted", "self._added_elements == old(self._added_elements) + 1"),
+                  ("duplicate_inserts_nothing",
+                   "implies(present0 and not force, len(self._blooms) == n0 and "
+                   "all(self._blooms[q] == old(self._blooms[q]) for q in range(0, n0)))"),
+                  ("inserted_into_newest_no_rotation",
+                   "implies((force or not present0) and not full0, len(self._blooms) == n0 and "
+                   "all(self._blooms[q] == old(self._blooms[q]) for q in range(0, n0 - 1)) and "
+                   "added_to(self._blooms[n0 - 1], old(self._blooms[n0 - 1]), hashes))"),
+                  ("rotation_keeps_all_when_room",
+                   "implies((force or not present0) and full0 and room0, len(self._blooms) == n0 + 1 and "
+                   "all(self._blooms[q] == old(self._blooms[q]) for q in range(0, n0)) and "
+                   "self._blooms[n0]._els_added == 1 and sub_reports(self._blooms[n0], hashes))"),
+                  ("rotation_drops_only_the_oldest",
+                   "implies((force or not present0) and full0 and not room0, len(self._blooms) == n0 and "
+                   "all(self._blooms[q] == old(self._blooms[q + 1]) for q in range(0, n0 - 1)) and "
+                   "self._blooms[n0 - 1]._els_added == 1 and sub_reports(self._blooms[n0 - 1], hashes))"),
+                  ("reported_afterwards", "exp_reports(self, hashes)"),
+                  ("inv", "inv_exp(self)"), ("bounded", "1 <= len(self._blooms) <= self._queue_size")])
